@@ -384,6 +384,10 @@ def discharge(ob, timeout_ms=None):
 def _nonlinear(f):
     """does the formula contain a product of two non-numeral terms, a division/modulo by a non-numeral, or a quantifier?"""
     seen = set()
+    try:
+        f = z3.simplify(f)        # folds ToReal(<numeral>) and the like, which would otherwise look like symbolic factors
+    except Exception:
+        pass
     stack = [f]
     while stack:
         t = stack.pop()
